@@ -442,7 +442,7 @@ def F20():
     def h(x: object): return ("top", call_next(x))
     @ovld
     def h(x: Meta): return "meta"
-    r = (f(K), outcome(lambda: f.resolve(K).__name__)[:32], outcome(lambda: g(K))[:32], outcome(lambda: h(K)))
+    r = (f(K), outcome(lambda: f.resolve(K).__name__)[:32], str(outcome(lambda: g(K)))[:32], outcome(lambda: h(K)))
     return r[1].startswith("EXC") or r[2].startswith("EXC"), f"call={r[0]!r} resolve={r[1]!r} via f.next={r[2]!r} via call_next={r[3]!r}"
 
 
